@@ -58,7 +58,7 @@ IVecVals == IF VecPool = "ids" THEN {<<>>, <<9, 1>>, <<9, 9, 5>>, <<3, 4, 11>>, 
             IF VecPool = "small" THEN {<<>>, <<5>>, <<3, 1, 2>>}
             ELSE {<<>>, <<5>>, <<1, 9>>, <<3, 1, 2>>, <<MaxInt, -1, MinInt, 2>>, <<2, 2, 1, 2>>}
 FVecVals == IF VecPool = "ids" THEN {<<FOne>>} ELSE
-            IF VecPool = "small" THEN {<<>>, <<FOne>>, <<1077936128, FOne, 1073741824>>}
+            IF VecPool = "small" THEN {<<>>, <<FOne>>, <<FPosZero, 1073741824>>, <<1077936128, FOne, 1073741824>>}
             ELSE {<<>>, <<FOne>>, <<1073741824, FPosZero>>, <<1077936128, FOne, 1073741824>>,
                   <<FQNaN, FOne, FNegInf, 1056964608>>, <<FNegZero, FPosZero, FOne>>}
 
